@@ -122,3 +122,259 @@ Proof.
     apply IH. rewrite (E st H). exact H. }
   rewrite G; reflexivity.
 Qed.
+
+(* ======================================================================================== *)
+(* The composition, CHECKED (Proofs/Compose.v).  Model/Exchange.v takes the contracts of C02,
+   C03, C06, C14, C15 as the semantics of its steps.  Below, every contract is a statement that
+   connects the definitions of the component model (Model/Batch.v, Job.v, Frag.v, Keys.v, Table.v:
+   the functions their own `check` evaluates against the implementation) to the views of
+   Exchange.v, proved from the component's theorems.  A premise that is not a well-formedness
+   condition of the component is a case the composition does NOT cover; these are listed in
+   notes/C05.md ("Composition: what is derived, what is still assumed").  Names of the component
+   models are written qualified (Batch.x, Job.x, Frag.x, Keys.x, Table.x); C03E / C14R / C02E /
+   C06E / C15E are the abstraction functions of Proofs/Compose.v. *)
+From XMT Require Proofs.Compose.
+
+(* ---- C03: one transmission of Batch.v = one direction of an intact Exchange step ---------------
+   abs ser p: the queued packet p of Batch.v as a packet of Exchange.v (job number, name, content
+   id; a keep-alive is the flag packet); ser: ANY naming of packets that ignores tags and the
+   device fill-in.  okp: keep-alive or ordinary data packet.  From a state without an abandoned
+   group: Session.next consumes k >= 1 packets (k = |pending before| - |pending after|), the
+   carried-over packet and the rest of the channel ARE the queue view of Exchange.v after
+   `Exchange dev 0 k true`, and the tasks the receiver's unpacking hands to the handlers are what
+   that step appended to the client's running taskers; nothing else changes. *)
+Definition C05_stmt_C03_transmission : Prop :=
+  forall (ser : Batch.packet -> Z),
+  (forall p t, ser (Batch.set_tags p t) = ser p) -> (forall p d, ser (Batch.set_dev p d) = ser p) ->
+  forall run dev c reg st tx st' (s : sess),
+  Batch.wf_conf c -> Forall Compose.C03E.okp (Batch.pending st) ->
+  Batch.all_reg reg (Batch.c_own c) (Batch.pending st) -> Batch.s_last st = 0 ->
+  Batch.session_next c st = (Some tx, st') ->
+  sq s = map (Compose.C03E.abs ser) (Batch.pending st) -> s_key s = c_key s ->
+  let k := (length (Batch.pending st) - length (Batch.pending st'))%nat in
+  let s' := sstep run dev (Exchange dev 0 k true) s in
+  (Batch.pending st <> [] -> (1 <= k)%nat) /\ Batch.s_last st' = 0 /\
+  sq s' = map (Compose.C03E.abs ser) (Batch.pending st') /\
+  c_inbox s' = c_inbox s ++ tasks_of (map (Compose.C03E.dabs ser) (fst (Batch.recv_tx reg (Batch.c_own c) tx))) /\
+  Compose.Views.srv_frame s' = Compose.Views.srv_frame s.
+Theorem C05_contract_C03_transmission : C05_stmt_C03_transmission.
+Proof. exact Compose.C03E.batch_tx_refines_exchange_down. Qed.
+Print Assumptions C05_contract_C03_transmission.
+
+(* the same transmission read as the CLIENT's batch: the receiver's handler is Session.handle,
+   folded (handle_tbl) over what was delivered, in order *)
+Definition C05_stmt_C03_results : Prop :=
+  forall (ser : Batch.packet -> Z),
+  (forall p t, ser (Batch.set_tags p t) = ser p) -> (forall p d, ser (Batch.set_dev p d) = ser p) ->
+  forall run dev c reg st tx st' (s : sess),
+  Batch.wf_conf c -> Forall Compose.C03E.okp (Batch.pending st) ->
+  Batch.all_reg reg (Batch.c_own c) (Batch.pending st) -> Batch.s_last st = 0 ->
+  Batch.session_next c st = (Some tx, st') ->
+  rq s = map (Compose.C03E.abs ser) (Batch.pending st) -> s_key s = c_key s ->
+  let k := (length (Batch.pending st) - length (Batch.pending st'))%nat in
+  let s' := sstep run dev (Exchange dev k 0 true) s in
+  (Batch.pending st <> [] -> (1 <= k)%nat) /\ Batch.s_last st' = 0 /\
+  rq s' = map (Compose.C03E.abs ser) (Batch.pending st') /\
+  Compose.Views.tbl_of s' =
+    fold_left Compose.Views.handle_tbl (map (Compose.C03E.dabs ser) (fst (Batch.recv_tx reg (Batch.c_own c) tx)))
+              (Compose.Views.tbl_of s) /\
+  Compose.Views.cli_frame s' = Compose.Views.cli_frame s.
+Theorem C05_contract_C03_results : C05_stmt_C03_results.
+Proof. exact Compose.C03E.batch_tx_refines_exchange_up. Qed.
+Print Assumptions C05_contract_C03_results.
+
+(* the whole drain of Batch.v (next() until nothing is pending) from a fresh queue q: simulated by
+   |drain| intact exchanges with positive budgets; afterwards the server queue is empty and the
+   client has started a tasker for exactly the tasks of q, in queue order, each once; what the
+   receiver was handed is q without its keep-alives (C03_drain_delivers_plain) *)
+Definition C05_stmt_C03_drain : Prop :=
+  forall (ser : Batch.packet -> Z),
+  (forall p t, ser (Batch.set_tags p t) = ser p) -> (forall p d, ser (Batch.set_dev p d) = ser p) ->
+  forall run dev c reg q (s : sess),
+  Batch.wf_conf c -> Forall Compose.C03E.okp q -> Batch.all_reg reg (Batch.c_own c) q ->
+  sq s = map (Compose.C03E.abs ser) q -> s_key s = c_key s ->
+  exists ks, length ks = length (Batch.drain c reg (Batch.mkS q None 0)) /\
+    (q <> [] -> Forall Compose.C03E.pos ks) /\
+    sq (Compose.C03E.srun run dev (Compose.C03E.down_labels dev ks) s) = [] /\
+    c_inbox (Compose.C03E.srun run dev (Compose.C03E.down_labels dev ks) s) =
+      c_inbox s ++ tasks_of (map (Compose.C03E.abs ser) q) /\
+    Compose.Views.srv_frame (Compose.C03E.srun run dev (Compose.C03E.down_labels dev ks) s) = Compose.Views.srv_frame s /\
+    map (Compose.C03E.dabs ser) (Batch.deliveries (Batch.drain c reg (Batch.mkS q None 0))) =
+      map (Compose.C03E.abs ser) (Batch.nonnop q).
+Theorem C05_contract_C03_drain : C05_stmt_C03_drain.
+Proof. exact Compose.C03E.batch_drain_refines_exchange. Qed.
+Print Assumptions C05_contract_C03_drain.
+
+(* ---- C14: the job table of Job.v, operation by operation -------------------------------------------
+   JR pl js s: the session js of Job.v satisfies its invariant, its table (job number -> handle) IS
+   s_jobs of s (the handle is the ghost serial), the Jobs it finished by a result are exactly s_done
+   of s, the number of Jobs created is s_serial.  pl: the (ghost) payload of the n-th Job.
+   Task: Job.v and Exchange.v refuse together and accept together. *)
+Definition C05_stmt_C14_task : Prop :=
+  forall pl run c js (s : sess) id draws full r js',
+  Compose.C14R.JR pl js s -> (id = 0 \/ 2 <= u16 id) ->
+  full = negb (len (s_send s) + 1 <? qcap) ->
+  Job.apply_op (Job.OTask id draws full) js = Ok (r, js') ->
+  let j := Compose.C14E.task_id id draws (Job.table js) in
+  Compose.C14R.JR pl js' (sstep run c (Task c j (pl (length (Job.jobs js)))) s) /\
+  (r = Job.RJob (length (Job.jobs js)) <-> task_ok j s = true).
+Theorem C05_contract_C14_task : C05_stmt_C14_task.
+Proof. exact Compose.C14R.job_task_refines. Qed.
+Print Assumptions C05_contract_C14_task.
+
+(* a result packet (normal, error, duplicate, unknown, numbered below 2) is Session.handle of
+   Exchange.v, which is also its re-delivery step Dup; a packet that is no result is no step *)
+Definition C05_stmt_C14_handle : Prop :=
+  forall pl js (s : sess) wf id err tag x r js',
+  Compose.C14R.JR pl js s -> Job.apply_op (Job.OHandle wf id err tag) js = Ok (r, js') ->
+  Compose.C14R.JR pl js' (if wf then handle s (Pkt id x tag) else s) /\
+  (r = Job.RBool true <-> wf = true /\ 2 <= id /\ tracked id s = true).
+Theorem C05_contract_C14_handle : C05_stmt_C14_handle.
+Proof. exact Compose.C14R.job_handle_refines. Qed.
+Print Assumptions C05_contract_C14_handle.
+
+(* Cancel: of a finished Job it changes nothing; of a pending tracked Job it is NOT a step of
+   Exchange.v (the related state is the old one with the entry deleted and no result recorded) *)
+Definition C05_stmt_C14_cancel : Prop :=
+  forall pl js (s : sess) h r js',
+  Compose.C14R.JR pl js s -> Job.apply_op (Job.OCancel h) js = Ok (r, js') ->
+  ((Job.getj js h = None \/ exists j, Job.getj js h = Some j /\ Job.jdone j = Job.Nil) -> js' = js) /\
+  (forall j, Job.getj js h = Some j -> Job.jdone j = Job.Open -> Job.lookup (Job.jid j) (Job.table js) = Some h ->
+     Compose.C14R.JR pl js' (set_table (del_job (Job.jid j) (s_jobs s)) (s_done s) s) /\ tracked (Job.jid j) s = true).
+Theorem C05_contract_C14_cancel : C05_stmt_C14_cancel.
+Proof. exact Compose.C14R.job_cancel_refines. Qed.
+Print Assumptions C05_contract_C14_cancel.
+
+(* every admissible sequential history of Job.v (run_ops: what the C14 check evaluates) runs to its
+   end and the labels read off it (Task for Task, Dup for a result, nothing for newJobID / Wait /
+   IsDone / Jobs / Job / hasJob / Cancel of a finished Job) lead Exchange.v to a related state *)
+Definition C05_stmt_C14_histories : Prop :=
+  forall pl run c ops js (s : sess),
+  Compose.C14R.JR pl js s -> Compose.C14R.job_adm pl run c ops js s ->
+  exists rets js', Job.run_ops ops js = Ok (rets, js') /\
+    Compose.C14R.JR pl js' (Compose.C14R.srun run c (Compose.C14R.job_trace pl c ops js) s).
+Theorem C05_contract_C14_histories : C05_stmt_C14_histories.
+Proof. exact Compose.C14R.job_ops_refine. Qed.
+Print Assumptions C05_contract_C14_histories.
+
+(* ---- C02: a fragmented packet is one delivery ------------------------------------------------------
+   under the premises of C02_reassemble_any_order (position 0 first, paced) the arrivals of the
+   group hand exactly ONE packet to the handlers; as far as Exchange.v can see (job number, payload)
+   it is the original, and the handler of either end runs once on it *)
+Definition C05_stmt_C02_one_delivery : Prop :=
+  forall (A : Type) (digest : list A -> Z) (ser : Z -> Z -> Z)
+         (F g self : Z) (n : Frag.packet A) (evs : list (Frag.ev A)) (st0 : Frag.state A),
+  Frag.HeaderSize <= F -> 0 <= Frag.p_tags n -> F < Frag.size n -> Frag.nfrag F n <= 65535 -> Frag.addressed self n ->
+  NoDup (map fst st0) -> Frag.lookup g st0 = None ->
+  Permutation.Permutation (Frag.own_pkts g evs) (Frag.split F g n) ->
+  hd_error (Frag.own_pkts g evs) = hd_error (Frag.split F g n) ->
+  Frag.paced g evs = true ->
+  let got := Compose.C02E.delivered (Frag.own_outs g evs (snd (Frag.run self st0 evs))) in
+  got = [Frag.reassembled n] /\
+  map (Compose.C02E.fabs digest ser) got = [Compose.C02E.fabs digest ser n] /\
+  Frag.lookup g (fst (Frag.run self st0 evs)) = None /\
+  (forall s, fold_left recv_task (map (Compose.C02E.fabs digest ser) got) s = recv_task s (Compose.C02E.fabs digest ser n)) /\
+  (forall s, fold_left handle (map (Compose.C02E.fabs digest ser) got) s = handle s (Compose.C02E.fabs digest ser n)).
+Theorem C05_contract_C02_one_delivery : C05_stmt_C02_one_delivery.
+Proof. exact (@Compose.C02E.frag_group_is_one_delivery). Qed.
+Print Assumptions C05_contract_C02_one_delivery.
+
+(* Session.write(false, n) against the queue test of the Task step (len(send) + 1 < 128): the same
+   test for a packet that fits one fragment; for a fragmented packet the code accepting implies
+   Exchange.v accepts (and the split is what is queued), NOT the converse *)
+Definition C05_stmt_C02_write_capacity : Prop :=
+  forall (A : Type) (F local g : Z) (n : Frag.packet A) (s : sess),
+  0 < F -> 0 <= Frag.p_tags n ->
+  let qlen := len (s_send s) in
+  (Frag.size n <= F ->
+     (fst (Frag.write F qcap false local qlen g n) = 0 <-> (qlen + 1 <? qcap) = true) /\
+     (fst (Frag.write F qcap false local qlen g n) = 0 ->
+      snd (Frag.write F qcap false local qlen g n) = [Frag.stamp local n])) /\
+  (F < Frag.size n -> fst (Frag.write F qcap false local qlen g n) = 0 ->
+     (qlen + 1 <? qcap) = true /\ 2 <= Frag.nfrag F n /\ Frag.nfrag F n <= qcap - qlen /\
+     snd (Frag.write F qcap false local qlen g n) = map (Frag.stamp local) (Frag.split F g n)).
+Theorem C05_contract_C02_write_capacity : C05_stmt_C02_write_capacity.
+Proof. exact (@Compose.C02E.frag_write_vs_task_capacity). Qed.
+Print Assumptions C05_contract_C02_write_capacity.
+
+(* ---- C06: complete rounds of the key machine keep the key epochs of Exchange.v equal -------------
+   any sequence of complete connections (a key announcement with its reply: Rekey c true; an
+   ordinary packet with its reply: Exchange c kc ks true) from settled ends: Keys.v is settled after
+   it, s_key = c_key after the matching labels (so every such exchange delivers its batches), and
+   the handlers of Keys.v saw exactly the payloads sent, in order.  dh_comm is C06's only premise. *)
+Definition C05_stmt_C06_rounds : Prop :=
+  forall (priv point : Type) (pub : priv -> point) (dh : priv -> point -> list Z),
+  (forall a b, dh a (pub b) = dh b (pub a)) ->
+  forall xrun c (rs : list (Compose.C06E.kround priv * (nat * nat))) k (s : sess),
+  Keys.settled pub k -> s_key s = c_key s ->
+  let k' := Compose.C06E.krun priv point pub dh (flat_map (fun r => Compose.C06E.kround_events priv (fst r)) rs) k in
+  let s' := fold_left (fun s r => sstep xrun c (Compose.C06E.kround_label priv c r) s) rs s in
+  Keys.settled pub k' /\ s_key s' = c_key s' /\
+  Keys.s_seen k' = fold_left (Compose.C06E.s_log priv) rs (Keys.s_seen k) /\
+  Keys.c_seen k' = fold_left (Compose.C06E.c_log priv) rs (Keys.c_seen k).
+Theorem C05_contract_C06_rounds : C05_stmt_C06_rounds.
+Proof. exact Compose.C06E.keys_rounds_refine. Qed.
+Print Assumptions C05_contract_C06_rounds.
+
+(* ---- C15: what a packet causes happens in the sessions of the devices it names ---------------------
+   one operation on the session table of Table.v: every handler call it causes, read as the Dup
+   (= Session.handle) label of the session it ran in, names a device the packet names, and the
+   session of every other device of Exchange.v is what it was (no no-collision premise) *)
+Definition C05_stmt_C15_named_sessions : Prop :=
+  forall (enc : Table.id -> Z) (res : Table.id -> Z -> Z) xrun a t o t' e r,
+  Table.wf t -> Table.step a t o = (t', e, r) ->
+  Forall (Compose.C15E.named_by enc (Table.op_names o)) (flat_map (Compose.C15E.eff_labels enc res) e) /\
+  forall st c, ~ In c (map enc (Table.op_names o)) ->
+    run_hist xrun (flat_map (Compose.C15E.eff_labels enc res) e) st c = st c.
+Theorem C05_contract_C15_named_sessions : C05_stmt_C15_named_sessions.
+Proof. exact Compose.C15E.table_step_touches_named. Qed.
+Print Assumptions C05_contract_C15_named_sessions.
+
+(* ---- all of it ---------------------------------------------------------------------------------- *)
+Theorem C05_exchange_contracts_hold_in_component_models :
+  C05_stmt_C03_transmission /\ C05_stmt_C03_results /\ C05_stmt_C03_drain /\
+  C05_stmt_C14_task /\ C05_stmt_C14_handle /\ C05_stmt_C14_cancel /\ C05_stmt_C14_histories /\
+  C05_stmt_C02_one_delivery /\ C05_stmt_C02_write_capacity /\
+  C05_stmt_C06_rounds /\ C05_stmt_C15_named_sessions.
+Proof.
+  exact (conj C05_contract_C03_transmission (conj C05_contract_C03_results (conj C05_contract_C03_drain
+        (conj C05_contract_C14_task (conj C05_contract_C14_handle (conj C05_contract_C14_cancel
+        (conj C05_contract_C14_histories (conj C05_contract_C02_one_delivery (conj C05_contract_C02_write_capacity
+        (conj C05_contract_C06_rounds C05_contract_C15_named_sessions)))))))))).
+Qed.
+Print Assumptions C05_exchange_contracts_hold_in_component_models.
+
+(* ---- histories generated by the component models' own step functions ------------------------------
+   let Batch.v's drain generate the exchanges: appended to ANY l_safe history whose server queue of
+   dev abstracts the Batch.v queue q, its transmissions are a history of the same machine, l_safe
+   (l_live if h was); the queue is empty after it, the client has started exactly the tasks of q,
+   and C05_job_result_own holds of the extended history *)
+Theorem C05_history_with_batch_drains :
+  forall run (ser : Batch.packet -> Z),
+  (forall p t, ser (Batch.set_tags p t) = ser p) -> (forall p d, ser (Batch.set_dev p d) = ser p) ->
+  forall h dev c reg q,
+  hist_ok run l_safe h init ->
+  Batch.wf_conf c -> Forall Compose.C03E.okp q -> Batch.all_reg reg (Batch.c_own c) q ->
+  sq (run_hist run h init dev) = map (Compose.C03E.abs ser) q ->
+  s_key (run_hist run h init dev) = c_key (run_hist run h init dev) ->
+  exists ks, length ks = length (Batch.drain c reg (Batch.mkS q None 0)) /\ (q <> [] -> Forall Compose.C03E.pos ks) /\
+    let h' := h ++ Compose.C03E.down_labels dev ks in
+    hist_ok run l_safe h' init /\ (hist_ok run l_live h init -> hist_ok run l_live h' init) /\
+    sq (run_hist run h' init dev) = [] /\
+    c_inbox (run_hist run h' init dev) = c_inbox (run_hist run h init dev) ++ tasks_of (map (Compose.C03E.abs ser) q) /\
+    (forall p r, In (p, r) (s_done (run_hist run h' init dev)) ->
+                 r = run dev (p_pl p) /\ In p (s_sched (run_hist run h' init dev))).
+Proof. exact Compose.Gen.exchange_history_with_batch_drain. Qed.
+Print Assumptions C05_history_with_batch_drains.
+
+(* let Job.v generate the Task / result steps: every admissible sequential history of Job.v from the
+   empty session, read as labels of device c, is a history of Exchange.v from init whose session of c
+   has Job.v's table as tracked jobs and Job.v's result-finished Jobs as finished jobs *)
+Theorem C05_history_of_job_operations :
+  forall run pl c ops,
+  Compose.C14R.job_adm pl run c ops Job.s0 init_sess ->
+  exists rets js, Job.run_ops ops Job.s0 = Ok (rets, js) /\
+    Compose.C14R.JR pl js (run_hist run (Compose.C14R.job_trace pl c ops Job.s0) init c) /\
+    Forall (fun l => client_of l = c) (Compose.C14R.job_trace pl c ops Job.s0).
+Proof. exact Compose.Gen.exchange_history_of_job_ops. Qed.
+Print Assumptions C05_history_of_job_operations.
